@@ -744,13 +744,12 @@ func (b *builder) service(f *File, name string) *Service {
 	return s
 }
 
+// openOnly filters the enums usable as a map value: the first value must be zero (protoc and the Go
+// runtime: "enum value in map must define 0 as the first value"), and, when filter is set, the enum must be open.
 func openOnly(enums []*typeInfo, filter bool) []*typeInfo {
-	if !filter {
-		return enums
-	}
 	var out []*typeInfo
 	for _, e := range enums {
-		if !e.Closed {
+		if (!filter || !e.Closed) && len(e.Enum.Values) > 0 && e.Enum.Values[0].Number == 0 {
 			out = append(out, e)
 		}
 	}
